@@ -225,6 +225,32 @@ def _normalise(tree):
                     if isinstance(b, list) and b and isinstance(b[0], ast.stmt):
                         propagate(b)
     # `if not c: A else: B` (B not an elif chain) is `if c: B else: A`: one polarity only, so that rules need not know both
+    # `if c: <body that always leaves> else: B` is `if c: <body>` followed by B: the else branch is lifted out (so a guard clause and the
+    # nested if/else form of the same code are one shape; elif chains whose arms all return become a sequence of ifs)
+    def leaves(body) -> bool:
+        return bool(body) and isinstance(body[-1], (ast.Return, ast.Continue, ast.Break, ast.Raise))
+
+    def lift(stmts):
+        out = []
+        for st in stmts:
+            # the arm that always leaves becomes the guard clause (negating the test when it is the else arm)
+            if isinstance(st, ast.If) and st.orelse and leaves(st.orelse) and not leaves(st.body) \
+                    and not (len(st.orelse) == 1 and isinstance(st.orelse[0], ast.If)):
+                t = st.test
+                st.test = t.operand if isinstance(t, ast.UnaryOp) and isinstance(t.op, ast.Not) else ast.copy_location(ast.UnaryOp(op=ast.Not(), operand=t), t)
+                st.body, st.orelse = st.orelse, st.body
+            if isinstance(st, ast.If) and st.orelse and leaves(st.body):
+                rest, st.orelse = st.orelse, []
+                out.append(st)
+                out.extend(lift(rest))
+            else:
+                out.append(st)
+        return out
+    for node in list(ast.walk(tree)):
+        for fld in ("body", "orelse", "finalbody"):
+            b = getattr(node, fld, None)
+            if isinstance(b, list) and b and isinstance(b[0], ast.stmt):
+                setattr(node, fld, lift(b))
     for node in ast.walk(tree):
         if isinstance(node, ast.If) and node.orelse and isinstance(node.test, ast.UnaryOp) and isinstance(node.test.op, ast.Not) \
                 and not (len(node.orelse) == 1 and isinstance(node.orelse[0], ast.If)):
